@@ -526,6 +526,23 @@ def work(arg):
                 a = addr
                 if source == "fresh":
                     a = (FRESH[0], 2000 + (i % 60000))   # every datagram from a new port: always a 'new client'
+                if source in ("spoofed", "temp") and len(data) >= 24 and data[:4] == TO_SERVER:
+                    # first as generated (sequence number 1: stale for a connection that has been talking for a while) ...
+                    v0 = env.inject(data, a)
+                    counts.inc("injected")
+                    flag(v0, {"part": "family", "mtu": mtu, "blocklist": blocklist, "source": source, "label": label, "hex": data[:600].hex()})
+                    if v0 and any(o == "alive" for o, _, _ in v0):
+                        env.build()
+                    # ... then again with a sequence number just AHEAD of that connection's receive window
+                    # (the attacker guesses it; anything in the forward half works); a valid CRC stays valid
+                    sc_ = env.w.ctxt.connections.get(a) or env.w.ctxt.temp_connections.get(a)
+                    if sc_ is not None:
+                        had_crc = binascii.crc32(data[:-4]) & 0xFFFFFFFF == struct.unpack(">L", data[-4:])[0]
+                        nseq = (int(sc_.bitfield_pkt.current_seqnum) + 7) % 65535 + 1
+                        data = data[:8] + struct.pack(">H", nseq) + data[10:]
+                        if had_crc:
+                            data = crc(data[:-4])
+                        label += " [seq ahead of the window]"
                 v = env.inject(data, a)
                 counts.inc("injected")
                 wit = {"part": "family", "mtu": mtu, "blocklist": blocklist, "source": source, "label": label, "hex": data[:600].hex()}
